@@ -375,24 +375,25 @@ Lemma opt_second_inv p s p' s1 : utf8_valid s = true -> Parsed.pget Parsed.F_sec
   opt_second p s = Val (POk (p', s1)) ->
   exists sec, rec_second_u s = Some (sec, s1) /\
     p' = match sec with Some v => Parsed.pput Parsed.F_second (Some v) p | None => p end /\
-    match sec with Some v => 0 <= v <= 60 | None => True end /\ utf8_valid s1 = true.
+    match sec with Some v => 0 <= v <= 60 | None => True end /\ utf8_valid s1 = true /\ blen s1 <= blen s.
 Proof.
   intros Hv Hp H. unfold opt_second, R2_TIME_SEP2 in H.
-  destruct (trim_start_valid s Hv) as [Hv0 _].
+  destruct (trim_start_valid s Hv) as [Hv0 Hl0].
   rewrite char_ok in H by (exact Hv0 || lia). unfold rec_second_u, uws0.
   destruct (trim_start s) as [|c t] eqn:Et.
-  - cbn [bind pok] in H. injection H as <- <-. exists None. auto.
+  - cbn [bind pok] in H. injection H as <- <-. exists None. repeat split; auto; lia.
   - destruct (c =? 58) eqn:Ec.
     + assert (c = 58) by lia. subst c. cbn [bind] in H. change (R2_SECOND_TRIM =? 1) with true in H. cbv iota in H.
       destruct (utf8_valid_tail_ascii 58 t ltac:(lia) Hv0) as [Hvt _].
-      destruct (trim_start_valid t Hvt) as [Hvt0 _].
+      destruct (trim_start_valid t Hvt) as [Hvt0 Hlt0].
       apply pbind_inv_ in H. destruct H as ([r v] & Hn & H).
       unfold R2_SECOND_MIN, R2_SECOND_MAX in Hn. destruct (two_inv _ _ _ Hvt0 Hn) as (T & Hvr & Hrange).
       apply pbind_inv_ in H. destruct H as (p2 & Hset & H).
       unfold Parsed.set_second in Hset. destruct (pset_checked_inv _ _ _ _ _ _ _ Hp Hset) as [Hr ->].
       rewrite as_u32_small in H by (unfold u32_max; lia). cbv [pok] in H. injection H as <- <-.
-      exists (Some v). unfold obind. rewrite T. auto.
-    + cbn [bind pok] in H. injection H as <- <-. exists None. auto.
+      exists (Some v). unfold obind. rewrite T. pose proof (take2_len _ _ _ T). rewrite blen_cons in Hl0.
+      repeat split; auto; lia.
+    + cbn [bind pok] in H. injection H as <- <-. exists None. repeat split; auto; lia.
 Qed.
 
 Lemma comments_inv : forall fuel s, utf8_valid s = true -> blen s <= u64_max ->
